@@ -25,7 +25,8 @@ def daqmx_file(draw, max_segments=3, max_channels=4, max_buffers=3, max_len=5, m
         kind = draw(st.sampled_from(['fc', 'fc', 'dl']))
         if kind == 'dl':
             ns = draw(st.integers(1, 3))
-            stypes = ['u8'] * ns
+            # digital lines of 8-bit ports (signed or unsigned type code) and of 16 / 32-bit ports
+            stypes = [draw(st.sampled_from(['u8', 'u8', 'i8', 'u16', 'u32'])) for _ in range(ns)]
         else:
             ns = draw(st.integers(1, 3))
             stypes = [draw(st.sampled_from(FC_TYPES)) for _ in range(ns)]
@@ -79,7 +80,8 @@ def daqmx_file(draw, max_segments=3, max_channels=4, max_buffers=3, max_len=5, m
                     break
                 b = draw(st.sampled_from(fit))
                 if c['kind'] == 'dl':
-                    off = draw(st.integers(0, widths[b] * 8 - 1))
+                    # bit offset: the port word (size bytes from byte off // 8) must lie inside the row
+                    off = draw(st.integers(0, (widths[b] - size) * 8 + 7))
                 else:
                     off = draw(st.integers(0, widths[b] - size))
                 scalers.append({'type': stype, 'buf': b, 'off': off, 'fmt': draw(st.integers(0, 3)), 'id': sid})
@@ -169,8 +171,10 @@ def scaler_chunk_values(seg, ent, scaler, k, rows=None):
     for r in range(n):
         row = buf[r * width:(r + 1) * width]
         if ent['kind'] == 'dl':
-            byte = row[scaler['off'] // 8]
-            out.append(bytes([(byte >> (scaler['off'] % 8)) & 1]))
+            # the port word starts at byte off // 8, is read in the segment's byte order, and bit off % 8 of it is the line
+            word = row[scaler['off'] // 8:scaler['off'] // 8 + size]
+            value = int.from_bytes(word, 'big' if seg['be'] else 'little')
+            out.append(((value >> (scaler['off'] % 8)) & 1).to_bytes(size, 'little'))
         else:
             v = row[scaler['off']:scaler['off'] + size]
             out.append(v[::-1] if seg['be'] else v)
@@ -232,13 +236,18 @@ def daqmx_packed_file(draw, max_segments=2, max_channels=4, max_buffers=2, max_l
         b = draw(st.integers(0, nbuf - 1))
         ns = draw(st.integers(1, 3))
         typed = ns == 1 and draw(st.booleans())
+        kind = draw(st.sampled_from(['fc', 'fc', 'dl']))
         scalers = []
         for sid in range(ns):
-            stype = draw(st.sampled_from(FC_TYPES))
+            stype = draw(st.sampled_from(FC_TYPES if kind == 'fc' else ['u8', 'i8', 'u16', 'u32']))
             cursor[b] += draw(st.integers(0, 2))            # padding
-            scalers.append({'type': stype, 'buf': b, 'off': cursor[b], 'fmt': 0, 'id': sid})
+            if kind == 'dl':
+                # a digital line: bit (0..7) of the port word that occupies the next tsize bytes
+                scalers.append({'type': stype, 'buf': b, 'off': cursor[b] * 8 + draw(st.integers(0, 7)), 'fmt': 0, 'id': sid})
+            else:
+                scalers.append({'type': stype, 'buf': b, 'off': cursor[b], 'fmt': 0, 'id': sid})
             cursor[b] += tsize(stype)
-        entries.append({'path': make_path('d', 'ch%d' % ci), 'hdr': 'daqmx', 'kind': 'fc',
+        entries.append({'path': make_path('d', 'ch%d' % ci), 'hdr': 'daqmx', 'kind': kind,
                         'chan_type': scalers[0]['type'] if typed else 'raw', 'n': lens[b], 'scalers': scalers,
                         'props': [] if typed else [['NI_Number_Of_Scales', 'u32', ns]]})
     widths = [max(1, cursor[b] + draw(st.integers(0, 2))) for b in range(nbuf)]
@@ -270,11 +279,12 @@ def reencode_big_endian(seg):
             rows = len(ba) // w if w else 0
             for e in seg_entries(seg):
                 for s in e['scalers']:
-                    if s['buf'] != b or e['kind'] != 'fc':
+                    if s['buf'] != b:
                         continue
                     size = tsize(s['type'])
+                    start = s['off'] if e['kind'] == 'fc' else s['off'] // 8       # digital line: the port word's first byte
                     for r in range(rows):
-                        a = r * w + s['off']
+                        a = r * w + start
                         ba[a:a + size] = ba[a:a + size][::-1]
             nb.append(bytes(ba))
         new_chunks.append(nb)
